@@ -59,7 +59,7 @@ def interp_tasks(r, ng, npts):
             for cl in combos[:npts]:
                 p = [coord(r, g["axes"][a], cl[a]) for a in range(nd)]
                 t = {"op": f"interp{nd}d", "x": g["axes"][0], "y": g["axes"][1], "v": g["grid"], "xq": p[0], "yq": p[1],
-                     "fval": float("nan"), "meta": {"cls": cl, "shape": g["grid"].shape}}
+                     "fval": float(r.choice([np.nan, -7.5, 0.1, 1e300])), "meta": {"cls": cl, "shape": g["grid"].shape}}
                 if nd == 3:
                     t.update(z=g["axes"][2], zq=p[2])
                 out.append(t)
@@ -69,7 +69,8 @@ def interp_tasks(r, ng, npts):
             for cl in combos[:npts]:
                 p = [coord(r, g["axes"][a], cl[a]) for a in range(nd)]
                 t = {"op": f"vinterp{nd}d", "x": g["axes"][0], "y": g["axes"][1], "v": g["grid"], "xq": p[0], "yq": p[1],
-                     "xsrc": g["source"][0], "ysrc": g["source"][1], "vzero": g["vzero"], "fval": float("nan"),
+                     "xsrc": g["source"][0], "ysrc": g["source"][1], "vzero": g["vzero"],
+                     "fval": float(r.choice([np.nan, -7.5, 0.1, 1e300])),
                      "meta": {"cls": cl, "shape": g["grid"].shape, "src": g["source"]}}
                 if nd == 3:
                     t.update(z=g["axes"][2], zq=p[2], zsrc=g["source"][2])
